@@ -267,6 +267,62 @@ def gen_future(ctx, P):
     return cases
 
 
+
+# ----------------------------------------------------------------------------- several futures of one process / requests posted in MPI
+X_DIRECTED = [
+    "p0-p0-S-g0-x0", "p0-p0", "p0-p0-p0-S-g0", "p0-p0-S-w0-v0-g0-g0",            # move assignment onto a future whose operation is PENDING
+    "p0-x0", "p0-x0-p1-S-g1", "p0-p1-x0-S-g1", "p0-p1-x1-S-g0",                     # destruction of a pending future
+    "p0-c01-S-g1", "p0-c01-x0-S-g1", "p0-c01-x1-p0-S-g0", "p0-c01-v0-r1-S-g1-v1",  # move construction from a pending future
+    "p0-p1-a01-S-g1-S-g0", "p0-p1-a01-x0-S-g1", "p0-p1-a10-x1-S-g0", "p0-p1-a00-S-g0-S-g1",   # assignment between two pending futures, self assignment
+    "p0-S-g0-p0-S-g0", "p0-S-w0-p0-S-g0", "p0-S-g0-p0-p0-S-g0", "p0-S-g0-v0-x0",   # re-use after get() / after completion
+    "p0-p1-p0-S-g1-S-g0", "p0-p1-p2-x1-S-g0-S-g2", "p0-c01-p0-S-g1-S-g0",          # matching order after re-posting
+    "S-p0-g0-g0", "S-p0-p0", "S-S-p0-g0-p1-g1",                                    # message arrived before the receive was posted
+    "q0-q0-g0", "q0-q0", "q0-x0", "q0-p0-S-g0", "p0-q0-g0-x0", "q0-c01-g1-v0", "q0-q1-a01-g1-g0",   # sends
+    "p0-c01-a10-S-g0", "p0-c01-a01-v1", "p0-x0-x0-p0-S-g0-g0",
+]
+
+
+def x_random(rng, nslots, maxlen):
+    """a random script that respects object lifetimes (which slots hold an object); blocking / racing ones are dropped by the model"""
+    live, pend, out, msgs = set(), 0, [], 0
+    for _ in range(rng.randrange(2, maxlen + 1)):
+        ch = rng.choice("ppppqcaaxxvrwgggSSS")
+        s = rng.randrange(nslots)
+        if ch in "pq":
+            out.append(ch + str(s)); live.add(s)
+        elif ch == "c":
+            free = [t for t in range(nslots) if t not in live]
+            if s in live and free:
+                t = rng.choice(free); out.append("c%d%d" % (s, t)); live.add(t)
+        elif ch == "a":
+            if s in live and len(live) >= 1:
+                t = rng.choice(sorted(live)); out.append("a%d%d" % (s, t))
+        elif ch == "x":
+            if s in live:
+                out.append("x%d" % s); live.discard(s)
+        elif ch == "S":
+            out.append("S")
+            if live:
+                out.append(rng.choice("gw") + str(rng.choice(sorted(live))))
+        elif s in live:
+            out.append(ch + str(s))
+    return "-".join(out)
+
+
+def gen_multi(ctx, P):
+    rng = ctx.rng("multi", P)
+    q = ctx.quick
+    cases, salt = [], 0
+    for pay in "ijvw":
+        for wrap in "re":
+            scripts = list(X_DIRECTED) + [x_random(rng, 3, 9) for _ in range(160 if q else (1500 if P <= 4 else 200))]   # (the scripts involve two ranks: large P adds only barrier time)
+            for sc in scripts:
+                if not sc:
+                    continue
+                salt = (salt + 1) % 90
+                cases.append("X %d M multi %s %s %d 3 %d %s" % (P, pay, wrap, salt, salt % P, sc))
+    return cases
+
 # ----------------------------------------------------------------------------- running
 def read_rank_outputs(prefix, P, sep):
     """merge out.<r> files: returns the lines of the cases ALL ranks completed"""
@@ -297,7 +353,7 @@ def run_mpi(ctx, exe, P, cases, tag, alarm=20, budget=900, env_extra=None):
         env = {"C19_ALARM": str(al), "OMPI_MCA_mpi_yield_when_idle": "1"}    # waiting ranks yield the CPU (shared, often overloaded machine)
         env.update(env_extra or {})
         rc, out = V.mpirun(P, exe, [cf, of], timeout=to, env=env)
-        return rc, out, read_rank_outputs(of, P, lambda i: " | " if cs[i].startswith("F") else "|")
+        return rc, out, read_rank_outputs(of, P, lambda i: " | " if cs[i][0] in "FX" else "|")
 
     while start < len(cases):
         rc, out, lines = launch(cases[start:], "%s.P%d.cases.%d" % (tag, P, start), alarm, max(60, int(t_end - time.time())))
@@ -464,6 +520,8 @@ def run(ctx):
     Ps = [1, 2, 3, 4] if ctx.quick else [1, 2, 3, 4, 5, 6]
     stats = {"guard": 0, "future": 0, "oracle_rejections": 0, "disagreements": 0}
     allcases, dist, dropped, nontrivial, cases_by_P, predicted_deadlocks = [], {}, 0, set(), {}, []
+    xdropped = 0
+    xretried = [0]
     corpus = []
     cp = os.path.join(V.VERIF, "corpus", "C19", "cases.txt")
     if os.path.exists(cp):
@@ -476,6 +534,7 @@ def run(ctx):
             cases += gen_future(ctx, P)
         elif not ctx.quick:
             cases += [c for c in gen_future(ctx, P) if c.split()[3] in ("ibarrier", "iallreduce", "igather")][:600]
+        cases += gen_multi(ctx, P)
         # pass 1: model alone; unstructured guard scripts are run on the impl only where the model predicts termination
         m1 = run_model(ctx, model, cases, tag="model1.P%d" % P)
         keep = []
@@ -484,6 +543,9 @@ def run(ctx):
                 dropped += 1
                 if "STUCK" in m and P == 2 and c.split()[2] in "HCW" and len(predicted_deadlocks) < 2:
                     predicted_deadlocks.append((c, m))
+                continue
+            if c.startswith("X ") and "DROP-" in m:      # ill-formed / blocking / racing with a message arrival: not run on the impl
+                xdropped += 1
                 continue
             if "MODEL-ERROR" in m or "UNKNOWN" in m:
                 ctx.violation("corr:C19/model-driver", {"broken": "corr:C19/model-driver", "case": c, "model": m}, found_input=False)
@@ -495,6 +557,14 @@ def run(ctx):
             ctx.notes.append("P=%d not run: %d reproduced hangs already reported" % (P, ctx.c19_hangs))
             continue
         io = run_mpi(ctx, impl, P, cases, "impl", alarm=8 if ctx.quick else 20)
+        for i, (c, a) in enumerate(zip(cases, io)):     # "T" = MPI_Wait did not return in time: load is not a verdict, repeat alone with 10x the time
+            if c.startswith("X ") and re.search(r"\dT/", a) and xretried[0] < (2 if ctx.quick else 6):
+                again = run_mpi(ctx, impl, P, [c], "xwait", alarm=60, env_extra={"C19_WAITMS": "20000"})
+                if again and not again[0].startswith(("HANG", "CRASH", "NOT-RUN")):
+                    io[i] = again[0]
+                xretried[0] += 1
+                if xretried[0] >= (2 if ctx.quick else 6):
+                    break
         ctx.log("P=%d: %d cases, impl %.1fs" % (P, len(cases), time.time() - t0))
         mo = run_model(ctx, model, cases, impl=io, tag="model2.P%d" % P)
         evaluate(ctx, cases, io, mo, stats)
@@ -554,6 +624,7 @@ def run(ctx):
                 "op; future case with at least two calls.  Distinct = distinct case lines." % (Ps, 3 if ctx.quick else 4),
         "samples": allcases[:2] + allcases[len(allcases) // 3: len(allcases) // 3 + 2] + allcases[-2:],
         "case_distribution": dist, "process_counts": Ps, "unstructured_scripts_dropped_model_predicts_deadlock": dropped,
+        "multi_future_scripts_dropped_blocking_or_racy": xdropped, "multi_future_cases": sum(1 for c in allcases if c.startswith("X ")),
         "guard_cases": stats["guard"], "future_cases": stats["future"],
         "impl_model_disagreements": stats["disagreements"], "cases_not_run_after_hangs": stats.get("not_run", 0), "oracle_rejections": stats["oracle_rejections"],
         "traces_validated_against_impl": len(allcases), "exhaustive": False, "sanitizer_cases": nsan, "model_predicted_deadlocks_confirmed_on_impl": ndl,
